@@ -286,7 +286,7 @@ def main():
         print("  " + msg.replace("\n", "\n  ")[:3000])
 
     # ---- floors ----
-    floors = spec.get("floors", {}).get(tier, {})
+    floors = {} if replay else spec.get("floors", {}).get(tier, {})
     unmet = []
     for k, mn in floors.items():
         if stats.get(k, 0) < mn:
